@@ -7,3 +7,4 @@ import SkoolVerif.Proofs.SimFrame
 import SkoolVerif.Proofs.SimWf
 import SkoolVerif.Props.C18
 import SkoolVerif.Props.C16
+import SkoolVerif.Props.C14
